@@ -990,7 +990,7 @@ func prepareDeltaBuild(options Options, repository *git.Repository) (repos map[f
 		}
 
 		for i, c := range changes {
-			oldFile, newFile, err := c.Files()
+			oldFile, newFile, err := changeFiles(c)
 			if err != nil {
 				return nil, nil, nil, fmt.Errorf("change #%d: getting files before and after change: %w", i, err)
 			}
@@ -1075,6 +1075,29 @@ func prepareDeltaBuild(options Options, repository *git.Repository) (repos map[f
 	changedOrDeletedPaths = uniq(changedOrDeletedPaths)
 
 	return repos, nil, changedOrDeletedPaths, nil
+}
+
+// changeFiles returns the files before and after the change, like
+// object.Change.Files. Unlike object.Change.Files, a side that is not a file
+// (e.g. a submodule entry) is reported as nil without hiding the other side:
+// a file replaced by a submodule is a deletion, a submodule replaced by a file
+// is an addition.
+func changeFiles(c *object.Change) (from, to *object.File, err error) {
+	if c.From.Tree != nil && c.From.TreeEntry.Mode.IsFile() {
+		from, err = c.From.Tree.TreeEntryFile(&c.From.TreeEntry)
+		if err != nil {
+			return nil, nil, err
+		}
+	}
+
+	if c.To.Tree != nil && c.To.TreeEntry.Mode.IsFile() {
+		to, err = c.To.Tree.TreeEntryFile(&c.To.TreeEntry)
+		if err != nil {
+			return nil, nil, err
+		}
+	}
+
+	return from, to, nil
 }
 
 func prepareNormalBuild(options Options, repository *git.Repository) (repos map[fileKey]BlobLocation, branchVersions map[string]map[string]plumbing.Hash, err error) {
